@@ -229,14 +229,14 @@ theorem accept_QE (s : State) : QE B s (acceptStep cfg s) := by
 
 theorem ticks_QE (s : State) : QE B s (ticks cfg s) := by
   unfold ticks
-  have h1 : QE B s (if cfg.timing && s.now - s.tTiming > 900 then { sendTiming cfg s with tTiming := s.now } else s) := by
+  have h1 : QE B s (if cfg.timing && s.now - s.tTiming > cfg.pTiming then { sendTiming cfg s with tTiming := s.now } else s) := by
     split
     · unfold sendTiming
       exact ((QE_same (s' := { s with counts := [], inTraffic := true }) rfl).trans (fwdTop_QE cfg hB hc _ _ (hc.timing _ _))).trans (QE_same rfl)
     · exact QE.refl B s
-  generalize (if cfg.timing && s.now - s.tTiming > 900 then { sendTiming cfg s with tTiming := s.now } else s) = s1 at h1
+  generalize (if cfg.timing && s.now - s.tTiming > cfg.pTiming then { sendTiming cfg s with tTiming := s.now } else s) = s1 at h1
   dsimp only
-  have h2 : QE B s1 (if s1.now - s1.tTraffic > 1000 then sendTraffic cfg s1 else s1) := by
+  have h2 : QE B s1 (if s1.now - s1.tTraffic > cfg.pTraffic then sendTraffic cfg s1 else s1) := by
     split
     · unfold sendTraffic
       refine (((QE_same (s' := { s1 with inTraffic := true }) rfl).trans (logAt_QE cfg hB hc 10 _)).trans
@@ -246,7 +246,7 @@ theorem ticks_QE (s : State) : QE B s (ticks cfg s) := by
       obtain ⟨p, _, rfl⟩ := List.mem_map.mp hf
       exact hc.traffic _ _ _ _
     · exact QE.refl B s1
-  generalize (if s1.now - s1.tTraffic > 1000 then sendTraffic cfg s1 else s1) = s2 at h2
+  generalize (if s1.now - s1.tTraffic > cfg.pTraffic then sendTraffic cfg s1 else s1) = s2 at h2
   refine (h1.trans h2).trans ?_
   split
   · unfold sendActive
